@@ -15,7 +15,7 @@ import (
 )
 
 func init() {
-	simrt.Register(&simrt.Prop{ID: "C29", Gen: genC29, Exec: execC29, Post: postC29})
+	simrt.Register(&simrt.Prop{ID: "C29", Gen: genC29, Exec: execC29, Post: postC29, RaceClass: "map-race"})
 }
 
 type c29Op struct {
